@@ -189,6 +189,7 @@ def run(rep):
     mk = vlib.compile_harness("mkArchive", "asan")
     arcs = readcore.writer_archives(mk)
     arcs += readcore.reference_archives(30000 if quick else 400000, limit=70 if quick else None)
+    arcs += readcore.replicated_archives(130 if quick else 400)
     rcases, meta = [], []
     for name, arc in arcs:
         small = len(arc) <= (6000 if quick else 8000)
